@@ -589,5 +589,149 @@ impl DefaultProblemData<F> {
 //@end
 }
 
+
+// ------------------------------------------------------------------ residuals of the homogeneous embedding (residuals.rs), F-real
+//@struct file=src/algebra/matrix_types.rs name=Adjoint rules=R12
+//@struct file=src/algebra/matrix_types.rs name=Symmetric rules=R12
+//@struct file=src/solver/implementations/default/variables.rs name=DefaultVariables rules=R2
+//@struct file=src/solver/implementations/default/residuals.rs name=DefaultResiduals rules=R2
+// real value of the dot kernel (vm_dot is the float-symbol fold the kernel computes, unit vecmath)
+pub open spec fn rdot(a: Seq<F>, b: Seq<F>, k: int) -> real decreases k { if k <= 0 { 0real } else { rdot(a, b, k - 1) + a[k - 1].v() * b[k - 1].v() } }
+pub proof fn lemma_fold_dot_real(a: Seq<F>, b: Seq<F>, k: int)
+    ensures fold_dot(a, b, k).v() == rdot(a, b, k),
+    decreases k,
+{
+    broadcast use real_arith;
+    if k > 0 { lemma_fold_dot_real(a, b, k - 1); }
+}
+pub proof fn lemma_dot_real(a: Seq<F>, b: Seq<F>)
+    requires a.len() == b.len(),
+    ensures vm_dot(a, b).v() == rdot(a, b, a.len() as int),
+{ reveal(vm_dot); lemma_fold_dot_real(a, b, a.len() as int); }
+
+impl<'a> CscMatrix<F> {
+//@fn file=src/algebra/csc/core.rs in="impl<T> CscMatrix<T>" name=t rules=R1 ret=r
+//@contract
+    ensures r.src == self,
+//@end
+//@fn file=src/algebra/csc/core.rs in="impl<T> CscMatrix<T>" name=sym rules=R1,drop:debug_assert!( ret=r
+//@contract
+    ensures r.src == self,
+//@end
+//@fn file=src/algebra/csc/matrix_math.rs in="MatrixVectorMultiply<T> for CscMatrix<T>" name=gemv rules=R1
+//@contract
+    requires self.colptr_ok(), x@.len() == self.n, rows_below(*self, old(y)@.len() as int),
+    ensures
+        final(y)@.len() == old(y)@.len(),
+        forall|r: int| 0 <= r < old(y)@.len() ==> (#[trigger] final(y)@[r]).v() == b.v() * old(y)@[r].v() + a.v() * total_n(*self, x@, r, self.n as int),
+//@end
+}
+impl<'a> Adjoint<'a, CscMatrix<F>> {
+//@fn file=src/algebra/csc/matrix_math.rs in="MatrixVectorMultiply<T> for Adjoint<'_, CscMatrix<T>>" name=gemv rules=R1
+//@contract
+    requires self.src.colptr_ok(), x@.len() == self.src.m, rows_below(*self.src, x@.len() as int), old(y)@.len() >= self.src.n,
+    ensures
+        final(y)@.len() == old(y)@.len(),
+        forall|c: int| 0 <= c < self.src.n ==> (#[trigger] final(y)@[c]).v() == b.v() * old(y)@[c].v() + a.v() * col_t(*self.src, x@, c),
+        forall|c: int| self.src.n <= c < old(y)@.len() ==> (#[trigger] final(y)@[c]).v() == b.v() * old(y)@[c].v(),
+//@end
+}
+impl<'a> Symmetric<'a, CscMatrix<F>> {
+//@fn file=src/algebra/csc/matrix_math.rs in="SymMatrixVectorMultiply<T> for Symmetric<'_, CscMatrix<T>>" name=symv rules=R1
+//@contract
+    requires self.src.colptr_ok(), self.src.n == self.src.m, x@.len() == self.src.n, old(y)@.len() == self.src.n, rows_below(*self.src, self.src.n as int),
+    ensures
+        final(y)@.len() == old(y)@.len(),
+        forall|r: int| 0 <= r < self.src.n ==> (#[trigger] final(y)@[r]).v() == b.v() * old(y)@[r].v() + a.v() * sv_total(*self.src, x@, r, self.src.n as int),
+//@end
+}
+
+pub open spec fn resid_dims(r: DefaultResiduals<F>, v: DefaultVariables<F>, d: DefaultProblemData<F>) -> bool {
+    let n = d.P.n as int; let m = d.A.m as int;
+    &&& d.P.colptr_ok() && d.P.m == d.P.n && rows_below(d.P, n)
+    &&& d.A.colptr_ok() && d.A.n == d.P.n && rows_below(d.A, m)
+    &&& v.x@.len() == n && v.z@.len() == m && v.s@.len() == m && d.q@.len() == n && d.b@.len() == m
+    &&& r.rx@.len() == n && r.rx_inf@.len() == n && r.Px@.len() == n && r.rz@.len() == m && r.rz_inf@.len() == m
+}
+impl DefaultResiduals<F> {
+//@fn file=src/solver/implementations/default/residuals.rs in="Residuals<T> for DefaultResiduals<T>" name=update rules=R1,R2 params=variables,data
+//@contract
+    requires resid_dims(*old(self), *variables, *data), variables.tau.v() != 0real,
+    ensures
+        resid_dims(*final(self), *variables, *data),
+        // C01 / C02 / C03: the residual vectors and inner products are the documented quantities of the homogeneous
+        // embedding, over the dense meaning of the stored P (symmetric from its upper triangle) and A (real arithmetic)
+        final(self).dot_qx.v() == rdot(data.q@, variables.x@, data.q@.len() as int),
+        final(self).dot_bz.v() == rdot(data.b@, variables.z@, data.b@.len() as int),
+        final(self).dot_sz.v() == rdot(variables.s@, variables.z@, variables.s@.len() as int),
+        final(self).dot_xPx.v() == rdot(variables.x@, final(self).Px@, variables.x@.len() as int),
+        forall|i: int| 0 <= i < data.P.n ==> {
+            &&& (#[trigger] final(self).Px@[i]).v() == sv_total(data.P, variables.x@, i, data.P.n as int)                 // Px = sym(P) x
+            &&& final(self).rx_inf@[i].v() == -col_t(data.A, variables.z@, i)                                              // rx_inf = -A'z
+            &&& final(self).rx@[i].v() == final(self).rx_inf@[i].v() - final(self).Px@[i].v() - variables.tau.v() * data.q@[i].v()  // rx = -A'z - Px - q tau
+        },
+        forall|r: int| 0 <= r < data.A.m ==> {
+            &&& (#[trigger] final(self).rz_inf@[r]).v() == variables.s@[r].v() + total_n(data.A, variables.x@, r, data.A.n as int)   // rz_inf = Ax + s
+            &&& final(self).rz@[r].v() == final(self).rz_inf@[r].v() - variables.tau.v() * data.b@[r].v()                  // rz = Ax + s - b tau
+        },
+        // r_tau = q'x + b'z + kappa + x'Px / tau
+        final(self).rtau.v() == final(self).dot_qx.v() + final(self).dot_bz.v() + variables.kappa.v() + final(self).dot_xPx.v() / variables.tau.v(),
+//@pre
+        broadcast use real_arith;
+        proof {
+            lemma_dot_real(data.q@, variables.x@); lemma_dot_real(data.b@, variables.z@); lemma_dot_real(variables.s@, variables.z@);
+        }
+//@before "symP.symv("
+        let ghost n = data.P.n as int;
+        let ghost m = data.A.m as int;
+        let ghost px0 = self.Px@;
+//@after "symP.symv("
+        proof {
+            assert forall|i: int| 0 <= i < n implies (#[trigger] self.Px@[i]).v() == sv_total(data.P, variables.x@, i, n) by {
+                let t = sv_total(data.P, variables.x@, i, n); let o = px0[i].v();
+                assert(0real * o + 1real * t == t) by(nonlinear_arith);
+            }
+        }
+//@after "let xPx = variables.x.dot(&self.Px);"
+        proof { lemma_dot_real(variables.x@, self.Px@); }
+        let ghost rxi0 = self.rx_inf@;
+//@after "At.gemv("
+        proof {
+            assert forall|i: int| 0 <= i < n implies (#[trigger] self.rx_inf@[i]).v() == -col_t(data.A, variables.z@, i) by {
+                let t = col_t(data.A, variables.z@, i); let o = rxi0[i].v();
+                assert(0real * o + (-1real) * t == -t) by(nonlinear_arith);
+            }
+        }
+//@after "A.gemv("
+        proof {
+            assert forall|r: int| 0 <= r < m implies (#[trigger] self.rz_inf@[r]).v() == variables.s@[r].v() + total_n(data.A, variables.x@, r, data.A.n as int) by {
+                let t = total_n(data.A, variables.x@, r, data.A.n as int); let o = variables.s@[r].v();
+                assert(1real * o + 1real * t == o + t) by(nonlinear_arith);
+            }
+        }
+//@after "self.rx.waxpby("
+        let ghost rx1 = self.rx@;
+        proof {
+            assert forall|i: int| 0 <= i < n implies (#[trigger] rx1[i]).v() == -self.Px@[i].v() - variables.tau.v() * data.q@[i].v() by {
+                let a = self.Px@[i].v(); let t = variables.tau.v(); let q = data.q@[i].v();
+                assert((-1real) * a + (-t) * q == -a - t * q) by(nonlinear_arith);
+            }
+        }
+//@after "self.rx.axpby("
+        proof {
+            assert forall|i: int| 0 <= i < n implies (#[trigger] self.rx@[i]).v() == self.rx_inf@[i].v() - self.Px@[i].v() - variables.tau.v() * data.q@[i].v() by {
+                let a = self.rx_inf@[i].v(); let c = rx1[i].v();
+                assert(1real * a + 1real * c == a + c) by(nonlinear_arith);
+            }
+        }
+//@before "self.rtau = qx"
+        proof {
+            assert forall|r: int| 0 <= r < m implies (#[trigger] self.rz@[r]).v() == self.rz_inf@[r].v() - variables.tau.v() * data.b@[r].v() by {
+                let a = self.rz_inf@[r].v(); let t = variables.tau.v(); let c = data.b@[r].v();
+                assert(1real * a + (-t) * c == a - t * c) by(nonlinear_arith);
+            }
+        }
+//@end
+}
 } // verus!
 fn main() {}
